@@ -165,7 +165,8 @@ def repo_fn_tokens(repo, reg, log):
     sig, body = tl[:body_open], tl[body_open:]
     for rw in [r for r in o.get("rw", "").split(",") if r]:
         f = {"forcont": X.rw_for_continue, "narrow": X.rw_narrow_collect, "breakval": X.rw_break_value,
-             "charsenum": X.rw_chars_enumerate, "revcollect": X.rw_rev_collect}[rw]
+             "charsenum": X.rw_chars_enumerate, "revcollect": X.rw_rev_collect,
+             "charrange": X.rw_range_contains}[rw]
         body, c = f(body)
         applied.append((rw, c))
     if "ops" in o:
